@@ -53,7 +53,7 @@ prop('C04', ['T5', 'N1', 'N2', 'N3', 'F8', 'M4', 'K4'],
      'node_entries (M4); the backwards walkers reverse their result (K4).',
      ['accessor(tree) is the leaf', 'prefix-freeness of paths', 'codify/eval agreement'])
 
-prop('C05', ['F1', 'F2', 'F3', 'F4', 'W2', 'K3', 'M7', 'P1', 'P4', 'M2', 'M3'],
+prop('C05', ['F1', 'F2', 'F3', 'F4', 'F11', 'W2', 'K3', 'M7', 'P1', 'P4', 'M2', 'M3'],
      'tree_map family, structural part: options forwarded unchanged (F1); the six map functions, '
      'three transpose-map and three broadcast-map functions are one normal form modulo the '
      'declared variation points, with the extra iterable first (F2); every rest is matched by an '
@@ -96,13 +96,14 @@ prop('C08', ['I3', 'M5', 'M5b', 'M6', 'F9', 'T6', 'K1', 'K3', 'M7', 'M1'],
      'constructor enumerates children, keys and metadata exactly like flatten (K3, M7, M1).',
      ['count identities', 'transform/compose algebra', 'repr text'])
 
-prop('C09', ['M4', 'M5b', 'P1', 'P4', 'K4', 'F1', 'F2', 'M2'],
+prop('C09', ['M4', 'M5b', 'P1', 'P4', 'K4', 'F1', 'F2', 'F11', 'M2'],
      'Broadcasting, structural part: the merge walker copies every payload field of a node (M4); '
      'the result namespace comes from both operands (M5b); '
      'its kind x kind compatibility equals the prefix matchers\' (P1) and dict children are paired '
      'by key (P4); it walks backwards with '
      'descending loops and one final reverse (K4); the Python layer forwards options and uses the '
-     'map normal form (F1, F2); broadcast trees are rebuilt by MakeNode (M2).',
+     'map normal form (F1, F2); n-ary broadcasting is two unconditional pairwise passes (F11); '
+     'broadcast trees are rebuilt by MakeNode (M2).',
      ['least upper bound', 'symmetry', 'idempotence'])
 
 prop('C10', ['F6', 'F2', 'F1', 'P1', 'M2', 'M3'],
@@ -165,13 +166,15 @@ prop('C16', ['K8', 'K9', 'K9py', 'K7', 'I1', 'I2', 'I3', 'I4', 'S3'],
      'Thorough tier: the #if arms of the accessor wrappers agree across 4 CPython configurations (X1).',
      ['absence of all undefined behaviour'], thorough_rules=['X1'])
 
-prop('C17', ['L1', 'L2', 'L3', 'L4', 'L5', 'T3', 'T3b'],
+prop('C17', ['L1', 'L2', 'L3', 'L4', 'L5', 'T3', 'T3b', 'G3'],
      'Concurrency, structural part: no call that can run Python code inside a region of a C++ '
      'mutex (these block with the GIL held) (L1); the lock graph is acyclic (L2); every access to '
      'shared engine state is inside a region of its mutex in the right mode (L3); registry '
      'check-then-act is atomic and Lookup returns by value (L4); the iterator keeps no reference '
      'into its agenda across user code (L5); cache insertion is capped and paired with eviction '
-     '(T3); every address-keyed memo of a recogniser is reset by the eviction callback (T3b).',
+     '(T3); every address-keyed memo of a recogniser is reset by the eviction callback (T3b); the '
+     'engine\'s register / unregister calls are made inside the Python registry lock, so writers '
+     'queue on a lock that releases the GIL instead of on the engine mutex (G3).',
      ['linearizability over schedules'])
 
 prop('C18', ['T1', 'T2', 'T3', 'T3b', 'T4', 'T5', 'T6', 'K7py', 'K6py'],
